@@ -528,19 +528,20 @@ Lemma add_deposit_good : forall c s pid who amt vp s' K,
 Proof.
   intros c s pid who amt vp s' K HI H; unfold add_deposit in H.
   destruct (get_prop pid (props s)) as [pr|] eqn:Eg; [|discriminate].
+  destruct (negb (denoms_ok c amt)); [discriminate|].
   destruct (debit c s who amt) as [s1|] eqn:Ed; [|discriminate].
   destruct (get_prop_In _ _ _ Eg) as [Hpr Hpid].
   destruct (debit_spec _ _ _ _ _ Ed) as [Hc1 [Hns [Hamt Hbo]]].
   unfold core in Hc1; inversion Hc1 as [[Hp1 Ht1 Hr1 Hn1 Hs1 Hu1]].
   remember (add_dep who amt (p_deps pr)) as deps.
   remember (match p_status pr with
-            | PDeposit => if le2 (c_gov_min c) (total_deposit (with_deposit pr deps (p_status pr) (p_vote_end pr)))
-                          then with_deposit pr deps PVoting (now s + vp)
-                          else with_deposit pr deps (p_status pr) (p_vote_end pr)
-            | PVoting => with_deposit pr deps (p_status pr) (p_vote_end pr)
+            | PDeposit => if le2 (min_deposit c pr) (total_deposit (with_deposit pr deps (p_status pr) (p_vote_start pr) (p_vote_end pr)))
+                          then with_deposit pr deps PVoting (now s) (now s + voting_period pr vp)
+                          else with_deposit pr deps (p_status pr) (p_vote_start pr) (p_vote_end pr)
+            | PVoting => with_deposit pr deps (p_status pr) (p_vote_start pr) (p_vote_end pr)
             end) as pr2.
   assert (Hpr2 : p_id pr2 = p_id pr /\ p_msgs pr2 = p_msgs pr /\ p_deps pr2 = deps).
-  { subst pr2; destruct (p_status pr); [destruct (le2 (c_gov_min c) _)|]; cbn; auto. }
+  { subst pr2; destruct (p_status pr); [destruct (le2 (min_deposit c pr) _)|]; cbn; auto. }
   destruct Hpr2 as [Hid [Hms Hdp]]. clear Heqpr2.
   set (s2 := set_props s1 (put_prop pr2 (props s1))) in *.
   assert (HI2 : Inv c s2).
@@ -589,13 +590,14 @@ Proof.
   rewrite Hm; exact IH.
 Qed.
 
-Lemma submit_good : forall c s who ms dep dp vp s' K,
-  Inv c s -> submit c s who ms dep dp vp = Some s' -> good c s s' K.
+Lemma submit_good : forall c s who ms dep dp vp ex s' K,
+  Inv c s -> submit c s who ms dep dp vp ex = Some s' -> good c s s' K.
 Proof.
-  intros c s who ms dep dp vp s' K HI H; unfold submit in H.
+  intros c s who ms dep dp vp ex s' K HI H; unfold submit in H.
   set (pid := next_id s) in *.
   set (pr := {| p_id := pid; p_proposer := who; p_msgs := ms; p_deps := []; p_status := PDeposit;
-                p_dep_end := now s + dp; p_vote_end := 0; p_vote := None |}) in *.
+                p_dep_end := now s + dp; p_vote_start := 0; p_vote_end := 0; p_vote := None;
+                p_expedited := ex |}) in *.
   set (s1 := set_next (set_props s (props s ++ [pr])) (N.succ pid)) in *.
   assert (Hh : run_hook c s1 pr = Some (set_temps s1 (temps s1))).
   { unfold run_hook. rewrite hook_no_deposit; [reflexivity | reflexivity | |];
@@ -633,6 +635,7 @@ Qed.
 Lemma vote_good : forall c s pid yes s' K, Inv c s -> vote s pid yes = Some s' -> good c s s' K.
 Proof.
   intros c s pid yes s' K HI H; unfold vote in H.
+  destruct (negb (ballot_ok yes)); [discriminate|].
   destruct (get_prop pid (props s)) as [pr|] eqn:Eg; [|discriminate].
   destruct (p_status pr); [discriminate|]. inversion H; subst; clear H.
   destruct (get_prop_In _ _ _ Eg) as [Hpr Hpid].
@@ -674,17 +677,18 @@ Proof.
     unfold is_live in *; cbn [props set_props] in H2; rewrite Hr, (get_prop_remove_other pid p _ E) in H2; congruence.
 Qed.
 
-(** Resolution steps of the EndBlocker: only credits, never a new entry. *)
+(** Resolution steps of the EndBlocker: only credits; a new entry only for a proposal that is
+    still live afterwards (the conversion of an expedited proposal runs the hook again). *)
 Definition good_res (c : config) (s s' : state) : Prop :=
   Inv c s' /\
   (forall x, bal_le s s' x) /\
-  incl (temps s') (temps s) /\
+  (forall a p b, In (a, p, b) (temps s') -> In (a, p, b) (temps s) \/ is_live s' p = true) /\
   (forall p, is_live s' p = true -> is_live s p = true) /\
   (forall p, is_live s p = true -> is_live s' p = false -> forall a b, ~ In (a, p, b) (temps s')).
 
 Lemma good_res_refl : forall c s, Inv c s -> good_res c s s.
 Proof.
-  intros c s HI; unfold good_res; splits; auto; try apply incl_refl; try (intros; apply bal_le_refl).
+  intros c s HI; unfold good_res; splits; auto; try (intros; apply bal_le_refl).
   intros p H1 H2; congruence.
 Qed.
 
@@ -693,11 +697,14 @@ Proof.
   intros c s s1 s2 [A1 [A2 [A3 [A4 A5]]]] [B1 [B2 [B3 [B4 B5]]]]; unfold good_res; splits.
   - exact B1.
   - intros x; eapply bal_le_trans; eauto.
-  - eapply incl_tran; eauto.
+  - intros a p b Hin. destruct (B3 _ _ _ Hin) as [H1|H1]; [|right; exact H1].
+    destruct (A3 _ _ _ H1) as [H0|H0]; [left; exact H0|].
+    destruct (is_live s2 p) eqn:E; [right; reflexivity|].
+    exfalso; eapply (B5 p H0 E); exact Hin.
   - intros p H; apply A4, B4; exact H.
   - intros p H1 H2 a b Hin. destruct (is_live s1 p) eqn:E.
     + eapply B5; eauto.
-    + eapply A5; eauto.
+    + destruct (B3 _ _ _ Hin) as [H3|H3]; [|congruence]. eapply A5; eauto.
 Qed.
 
 Lemma good_res_fold : forall c (f : state -> N -> state),
@@ -725,35 +732,77 @@ Proof.
   - rewrite (get_prop_remove_other pid p _ E) in H; exact H.
 Qed.
 
-Lemma expire_one_good : forall c s pid, Inv c s -> good_res c s (expire_one s pid).
+(** Refund or burn: the sanction core is untouched and no balance goes down. *)
+Lemma refund_or_not : forall (b : bool) deps s, (forall d, In d deps -> nn2 (snd d)) ->
+  core (if b then s else refund_all s deps) = core s /\
+  forall x, bal_le s (if b then s else refund_all s deps) x.
+Proof.
+  intros b deps s Hnn; destruct b.
+  - split; [reflexivity | intros; apply bal_le_refl].
+  - apply refund_all_spec; exact Hnn.
+Qed.
+
+Lemma expire_one_good : forall c s pid, Inv c s -> good_res c s (expire_one c s pid).
 Proof.
   intros c s pid HI; unfold expire_one.
   destruct (get_prop pid (props s)) as [pr|] eqn:Eg; [|apply good_res_refl; exact HI].
   destruct (get_prop_In _ _ _ Eg) as [Hpr Hpid].
   set (s1 := set_props s (remove_prop pid (props s))).
-  destruct (refund_all_spec (p_deps pr) s1 (fun d Hd => inv_deps_nonneg c s HI pr d Hpr Hd)) as [Hc Hb].
+  destruct (refund_or_not (c_burn_prevote c) (p_deps pr) s1 (fun d Hd => inv_deps_nonneg c s HI pr d Hpr Hd)) as [Hc Hb].
+  set (s2 := if c_burn_prevote c then s1 else refund_all s1 (p_deps pr)) in *.
   unfold core in Hc; inversion Hc as [[Hp Ht Hr Hn Hs Hu]]. subst s1; cbn [perm temps props next_id smin umin bal set_props] in *.
   unfold good_res; splits.
   - eapply (Inv_shrink c s); eauto; cbn [temps props perm next_id smin umin set_temps]; rewrite ?Ht, ?Hp, ?Hr; try apply incl_refl.
     + intros e He; eapply In_del_prop; exact He.
     + intros x Hx; apply In_remove_prop in Hx; tauto.
   - intros x; specialize (Hb x); unfold bal_le in *; cbn [bal balb set_temps set_props] in *; exact Hb.
-  - cbn [temps set_temps]; rewrite Ht; intros e He; eapply In_del_prop; exact He.
+  - intros a p b Hin; left. cbn [temps set_temps] in Hin; rewrite Ht in Hin; eapply In_del_prop; exact Hin.
   - intros p H; eapply is_live_remove_mono; [|exact H]. cbn [props set_temps]; exact Hr.
   - intros p H1 H2 a b Hin.
     assert (p = pid) by (eapply is_live_remove; [|exact H1|exact H2]; cbn [props set_temps]; exact Hr).
     subst p. cbn [temps set_temps] in Hin. apply In_del_prop_not in Hin; congruence.
 Qed.
 
-Lemma tally_one_good : forall c s pid, Inv c s -> good_res c s (tally_one c s pid).
+Lemma tally_one_good : forall c vp s pid, Inv c s -> good_res c s (tally_one c vp s pid).
 Proof.
-  intros c s pid HI; unfold tally_one.
+  intros c vp s pid HI; unfold tally_one.
   destruct (get_prop pid (props s)) as [pr|] eqn:Eg; [|apply good_res_refl; exact HI].
   destruct (get_prop_In _ _ _ Eg) as [Hpr Hpid].
-  destruct (refund_all_spec (p_deps pr) s (fun d Hd => inv_deps_nonneg c s HI pr d Hpr Hd)) as [Hc Hb].
+  destruct (tally c (p_expedited pr) (p_vote pr)) as [passes burn].
+  destruct (p_expedited pr && negb passes).
+  { (* conversion of an expedited proposal *)
+    set (pr' := converted pr vp) in *.
+    set (s1 := set_props s (put_prop pr' (props s))) in *.
+    assert (HI1 : Inv c s1).
+    { eapply (Inv_put_prop c s s1 pr pr'); eauto; try reflexivity.
+      intros d Hd; cbn in Hd; eapply (inv_deps_nonneg c s HI); eauto. }
+    assert (Hin1 : In pr' (props s1)).
+    { subst s1; cbn [props set_props]. eapply In_put_prop_self; [exact Hpr | reflexivity]. }
+    assert (Hlive1 : forall q, is_live s1 q = is_live s q).
+    { intros q; unfold is_live; subst s1; cbn [props set_props]. apply get_prop_put. }
+    destruct (run_hook c s1 pr') as [s'|] eqn:H.
+    - pose proof (Inv_run_hook _ _ _ _ HI1 Hin1 H) as HI'.
+      destruct (run_hook_spec _ _ _ _ H) as [Hp [Hr [Hn [Hb [Hbb [_ [_ [Hinc Ht]]]]]]]].
+      assert (Hlive : forall q, is_live s' q = is_live s q).
+      { intros q; rewrite <- Hlive1; unfold is_live; rewrite Hr; reflexivity. }
+      unfold good_res; splits.
+      + exact HI'.
+      + intros x; unfold bal_le; rewrite Hb, Hbb; subst s1; cbn [bal balb set_props]; lia.
+      + intros a p b Hin; destruct (Ht _ _ _ Hin) as [Ho|[E1 _]].
+        * left; exact Ho.
+        * right; rewrite Hlive; unfold is_live; subst p; cbn [p_id pr' converted]; rewrite Hpid, Eg; reflexivity.
+      + intros p Hl; rewrite Hlive in Hl; exact Hl.
+      + intros p H1 H2; rewrite Hlive in H2; congruence.
+    - unfold good_res; splits.
+      + exact HI1.
+      + intros x; unfold bal_le; subst s1; cbn [bal balb set_props]; lia.
+      + intros a p b Hin; left; exact Hin.
+      + intros p Hl; rewrite Hlive1 in Hl; exact Hl.
+      + intros p H1 H2; rewrite Hlive1 in H2; congruence. }
+  destruct (refund_or_not burn (p_deps pr) s (fun d Hd => inv_deps_nonneg c s HI pr d Hpr Hd)) as [Hc Hb].
+  set (s1 := if burn then s else refund_all s (p_deps pr)) in *.
   unfold core in Hc; inversion Hc as [[Hp Ht Hr Hn Hs Hu]].
-  set (s1 := refund_all s (p_deps pr)) in *.
-  set (s2 := set_props s1 (remove_prop pid (props s1))).
+  set (s2 := set_props s1 (remove_prop pid (props s1))) in *.
   assert (HI2 : Inv c s2).
   { eapply (Inv_shrink c s); eauto; subst s2; cbn [temps props perm next_id smin umin set_props]; rewrite ?Ht, ?Hp, ?Hr; try apply incl_refl.
     intros x Hx; apply In_remove_prop in Hx; tauto. }
@@ -763,31 +812,31 @@ Proof.
     - eapply (Inv_shrink c s2); eauto; cbn [temps props perm next_id smin umin set_temps]; try apply incl_refl.
       intros e He; eapply In_del_prop; exact He.
     - intros x; specialize (Hb x); unfold bal_le in *; subst s2; cbn [bal balb set_temps set_props] in *; exact Hb.
-    - cbn [temps set_temps]; subst s2; cbn [temps set_props]; rewrite Ht; intros e He; eapply In_del_prop; exact He.
-    - intros p H; eapply is_live_remove_mono; [|exact H]. cbn [props set_temps]; exact Hr2.
+    - intros a p b Hin; left. cbn [temps set_temps] in Hin; subst s2; cbn [temps set_props] in Hin; rewrite Ht in Hin; eapply In_del_prop; exact Hin.
+    - intros p Hl; eapply is_live_remove_mono; [|exact Hl]. cbn [props set_temps]; exact Hr2.
     - intros p H1 H2 a b Hin.
       assert (p = pid) by (eapply is_live_remove; [|exact H1|exact H2]; cbn [props set_temps]; exact Hr2).
       subst p. cbn [temps set_temps] in Hin. apply In_del_prop_not in Hin; congruence. }
-  destruct (p_vote pr) as [[|]|]; try exact Hdel.
+  destruct passes; [|exact Hdel].
   destruct (exec_msgs c s2 (p_msgs pr)) as [s3|] eqn:Ex; [|exact Hdel].
   destruct (exec_msgs_spec _ _ _ _ Ex) as [B1 [B2 [B3 [B3b [B4 [B8 [B5 [B6 B7]]]]]]]].
   assert (Ht2 : temps s2 = temps s) by (subst s2; cbn [temps set_props]; exact Ht).
   unfold good_res; splits.
   - eapply (Inv_exec c s2); eauto.
   - intros x; specialize (Hb x); unfold bal_le in *; rewrite B3, B3b; subst s2; cbn [bal balb set_props] in *; exact Hb.
-  - rewrite <- Ht2; exact B5.
-  - intros p H; eapply is_live_remove_mono; [|exact H]. rewrite B1; exact Hr2.
+  - intros a p b Hin; left; rewrite <- Ht2; apply B5; exact Hin.
+  - intros p Hl; eapply is_live_remove_mono; [|exact Hl]. rewrite B1; exact Hr2.
   - intros p H1 H2 a b Hin.
     assert (p = pid) by (eapply is_live_remove; [|exact H1|exact H2]; rewrite B1; exact Hr2).
     subst p. apply (B7 a pid b); [|exact Hin].
     eapply (inv_temp_addr c s HI a pid b pr); [rewrite <- Ht2; apply B5; exact Hin | exact Hpr | exact Hpid].
 Qed.
 
-Lemma end_block_good : forall c s, Inv c s -> good_res c s (end_block c s).
+Lemma end_block_good : forall c vp s, Inv c s -> good_res c s (end_block c vp s).
 Proof.
-  intros c s HI; unfold end_block.
-  match goal with |- good_res c s (fold_left (tally_one c) _ ?s1) =>
-    assert (G1 : good_res c s s1) by (apply (good_res_fold c expire_one (expire_one_good c)); exact HI);
+  intros c vp s HI; unfold end_block.
+  match goal with |- good_res c s (fold_left (tally_one c vp) _ ?s1) =>
+    assert (G1 : good_res c s s1) by (apply (good_res_fold c (expire_one c) (expire_one_good c)); exact HI);
     eapply good_res_trans; [exact G1|]; apply good_res_fold; [apply tally_one_good | destruct G1 as [G1 _]; exact G1]
   end.
 Qed.
@@ -799,7 +848,8 @@ Proof.
   unfold good; splits.
   - eapply Inv_core; eauto.
   - intros x _; unfold bal_le; rewrite Hb, Hbb; apply A2.
-  - intros a p b Hin; left; apply A3; rewrite <- Ht; exact Hin.
+  - intros a p b Hin; rewrite Ht in Hin. destruct (A3 _ _ _ Hin) as [H0|H0]; [left; exact H0|].
+    right; rewrite (is_live_props s' s'' p Hr); exact H0.
   - intros p H1 H2; right; intros a b Hin. rewrite (is_live_props s' s'' p Hr) in H2.
     apply (A5 p H1 H2 a b). rewrite <- Ht; exact Hin.
 Qed.
